@@ -304,7 +304,7 @@ def check_freshlen(c, repo):
             c.check(ok, f, r.ast, 'every path ends in return self.do_search(window, freshlen)', witness=norm(r.ast), tag='ends-in-search')
             if not ok:
                 continue
-            fl = lin(v.args[1], f)
+            fl = lin(v.args[1], f, stale_ok=True)          # the length taken at entry (the order of take / clear is D3's and D7's business)
             if want == 'data':
                 d = f.params[1]
                 good = fl is not None and fl == Lin(0, {'len(%s)' % d: 1})
@@ -344,7 +344,7 @@ def check_seeks(c, repo):
                 store = sc[0]
                 a = k.args[0] if k.args else None
                 c.need(a is not None, 'seek without argument')
-                L = lin(a, f)
+                L = lin(a, f, stale_ok=True)
                 c.need(L is not None and len(L.terms) == 1 and L.const == 0 and list(L.terms)[0].startswith('max(0,'),
                        '%s: seek argument is not max(0, <length> - <k>): %s' % (q, norm(a)))
                 # re-derive the inner form
@@ -354,7 +354,7 @@ def check_seeks(c, repo):
                 if isinstance(a, ast.Call) and dotted(a.func) == 'max':
                     inner = [z for z in a.args if not is_const(z, 0)]
                 c.need(inner and len(inner) == 1, 'seek argument is not max(0, e)')
-                Li = lin(inner[0], f)
+                Li = lin(inner[0], f, stale_ok=True)
                 c.need(Li is not None, 'seek offset not linear')
                 pos = [t for t, co in Li.terms.items() if co == 1]
                 neg = [t for t, co in Li.terms.items() if co == -1]
